@@ -430,6 +430,8 @@ type c08SharedCase struct {
 	A           int  `json:"a"`
 	B           int  `json:"b"`
 	MC          bool `json:"mc"`
+	// Arg: the shared sub-slice is a reused Result (argument of the Func)
+	Arg bool `json:"arg,omitempty"`
 }
 
 // TestVerifC08Shared enumerates Cogroup(A(s), B(s)) over one shared sub-slice
@@ -437,8 +439,12 @@ type c08SharedCase struct {
 // compiler's memo table decides what each consumer gets.
 func TestVerifC08Shared(t *testing.T) {
 	rec := vt.New("C08", "shared-subslice-pairs",
-		fmt.Sprintf("complete enumeration of Cogroup(A(s), B(s)) over one shared sub-slice s = Map(ReaderFunc) for every ordered pair (A, B) of consumer kinds %v x shard counts {1,2,3} x {plain, Materialize pragma on s} x machine combiners on/off; same checks as compile; non-trivial = A != B; distinct by case", progen.SharedKinds))
+		fmt.Sprintf("complete enumeration of Cogroup(A(s), B(s)) over one shared sub-slice s = Map(ReaderFunc) for every ordered pair (A, B) of consumer kinds %v x shard counts {1,2,3} x {plain, Materialize pragma on s, s a reused Result passed as argument} x machine combiners on/off; same checks as compile; non-trivial = A != B; distinct by case", progen.SharedKinds))
 	run := func(c c08SharedCase) error {
+		if c.Arg {
+			main, arg := progen.EnumSharedArg(c.NShard, c.NRows, c.A, c.B)
+			return c08Check(c08Case{Spec: *main, Args: []progen.Spec{*arg}, MachineCombiners: c.MC})
+		}
 		return c08Check(c08Case{Spec: *progen.EnumShared(c.NShard, c.NRows, c.Materialize, c.A, c.B), MachineCombiners: c.MC})
 	}
 	docs, only := vt.Replays(c08Shared)
@@ -461,14 +467,15 @@ func TestVerifC08Shared(t *testing.T) {
 	for a := range progen.SharedKinds {
 		for b := range progen.SharedKinds {
 			for _, nshard := range []int{1, 2, 3} {
-				for _, mat := range []bool{false, true} {
+				for _, mode := range []int{0, 1, 2} { // plain, Materialize pragma, reused Result
 					for _, mc := range []bool{false, true} {
 						idx++
 						if !vt.Mine(idx) {
 							continue
 						}
-						c := c08SharedCase{nshard, 6, mat, a, b, mc}
-						rec.Case(a != b, vt.Hash("shared", nshard, mat, a, b, mc), "pair:"+progen.SharedKinds[a]+"+"+progen.SharedKinds[b])
+						mat := mode == 1
+						c := c08SharedCase{nshard, 6, mat, a, b, mc, mode == 2}
+						rec.Case(a != b, vt.Hash("shared", nshard, mode, a, b, mc), "pair:"+progen.SharedKinds[a]+"+"+progen.SharedKinds[b])
 						if a != b && rec.WantSample("shared") {
 							rec.Sample("shared", map[string]interface{}{"case": c, "a": progen.SharedKinds[a], "b": progen.SharedKinds[b]})
 						}
